@@ -231,6 +231,7 @@ TGOAL_POOL = [
     ((((("gstart", 0), GE, False, False), ("or", NOT(b), p(o1))),), 1),
 ]
 ANML_T_SLOTS = T_SLOTS + ["tgoal"]
+PDDL_T_SLOTS = T_SLOTS + ["metric"]
 
 
 def t_pool(slot, anml=False):
@@ -270,6 +271,9 @@ def t_make(choices, keep_bounds=False, keep_r=False):
         "effs": ((START, eff("assign", b, TRUE)),),
     }
     ps["dactions"] = (d1, d2)
+    mt = ps.get("metric")
+    if mt is not None and mt[0] == "costs" and mt[2] is None:
+        return None  # d1/d2 would have no cost set
     if "til" in ch:
         ps["teffs"] = tuple(ch["til"])
     if "tgoal" in ch:
@@ -278,7 +282,7 @@ def t_make(choices, keep_bounds=False, keep_r=False):
 
 
 def t_instances(level, core_only=False, anml=False, **kw):
-    for combo in combinations(ANML_T_SLOTS if anml else T_SLOTS, level):
+    for combo in combinations(ANML_T_SLOTS if anml else PDDL_T_SLOTS, level):
         idxs = []
         for sname in combo:
             pl = t_pool(sname, anml)
